@@ -3,9 +3,10 @@
 the demonstration fails with it and passes without it.  usage: confirm_seed.py Cxx mN   -> prints a JSON line"""
 import json, os, subprocess, sys, shutil
 prop, m = sys.argv[1], sys.argv[2]
-wt = "/tmp/wt-%s" % prop
-out = "/tmp/wt-%s-out/%s" % (prop, m)
-env = dict(os.environ, CARGO_NET_OFFLINE="true", CARGO_TARGET_DIR="/tmp/wt-target-%s" % prop)
+pre = os.environ.get("SEED_PREFIX", "wt")
+wt = "/tmp/%s-%s" % (pre, prop)
+out = "/tmp/%s-%s-out/%s" % (pre, prop, m)
+env = dict(os.environ, CARGO_NET_OFFLINE="true", CARGO_TARGET_DIR="/tmp/%s-target-%s" % (pre, prop))
 def sh(cmd, timeout=900, cwd=wt):
     try:
         p = subprocess.run(cmd, shell=True, cwd=cwd, env=env, capture_output=True, text=True, timeout=timeout)
